@@ -71,12 +71,13 @@ func newC09Backend() (*c09Backend, error) {
 }
 
 type c09Case struct {
-	Tok      string          `json:"tok"`
-	URLForm  string          `json:"shim_url_form,omitempty"`
-	Shim     bool            `json:"via_shim_open"`
-	Identity string          `json:"asserted_identity"`
-	Fields   []rawhttp.Field `json:"client_fields"`
-	Class    string          `json:"class"`
+	Tok           string          `json:"tok"`
+	URLForm       string          `json:"shim_url_form,omitempty"`
+	Shim          bool            `json:"via_shim_open"`
+	Identity      string          `json:"asserted_identity"`
+	Fields        []rawhttp.Field `json:"client_fields"`
+	Class         string          `json:"class"`
+	ConnNominated bool            `json:"connection_nominates_field,omitempty"`
 }
 
 // C09 — identity and credential headers are trustworthy.
@@ -169,10 +170,19 @@ func C09(r *core.Run) {
 				if !emptyAuth {
 					rng.Shuffle(len(c.Fields), func(a, b int) { c.Fields[a], c.Fields[b] = c.Fields[b], c.Fields[a] })
 				}
+				conn := "none"
+				if rng.Intn(5) == 0 {
+					// the client nominates the identity (or credential) field as hop-by-hop
+					k := rng.Intn(4)
+					conn = []string{"user-id", "close+user-id", "keep-alive+user-id", "authorization"}[k]
+					c.ConnNominated = true
+					c.Fields = append(c.Fields, rawhttp.Field{Name: []string{"Connection", "connection"}[rng.Intn(2)],
+						Value: []string{"X-Inverting-Proxy-User-ID", "close, x-inverting-proxy-user-id", "keep-alive, X-Inverting-Proxy-User-Id", "Authorization"}[k]})
+				}
 				if c.Shim {
 					c.URLForm = []string{"absolute", "absolute", "userinfo", "path-only", "userinfo-no-password"}[rng.Intn(5)]
 				}
-				c.Class = fmt.Sprintf("%s|shim=%v%s|forged=%s|auth=%d|id=%s", cfgName, c.Shim, c.URLForm, fshape, auth, idKind)
+				c.Class = fmt.Sprintf("%s|shim=%v%s|forged=%s|auth=%d|id=%s|conn=%s", cfgName, c.Shim, c.URLForm, fshape, auth, idKind, conn)
 				cases = append(cases, c)
 			}
 			// issue the requests, 8 in flight
@@ -199,7 +209,7 @@ func C09(r *core.Run) {
 							Field("Content-Length", fmt.Sprint(len(body))).End()
 						w.WriteString(body)
 					} else {
-						w.Line("GET /plain/" + c.Tok + " HTTP/1.1").Field("Host", "c09.example").Field("X-Tok", c.Tok).Fields(c.Fields).End()
+						w.Line("GET /plain/"+c.Tok+" HTTP/1.1").Field("Host", "c09.example").Field("X-Tok", c.Tok).Fields(c.Fields).End()
 					}
 					px.Enqueue(c.Tok, w.Bytes(), c.Identity)
 					up, ok := px.Wait(c.Tok, 20*time.Second)
@@ -257,6 +267,9 @@ func C09(r *core.Run) {
 								what = "client-value-forwarded"
 							} else if len(ids) == 0 {
 								what = "missing"
+							}
+							if c.ConnNominated {
+								what += ":connection-nominated"
 							}
 							r.Violate("C09:user-id:"+what+":"+kind, fmt.Sprintf("%s: backend saw X-Inverting-Proxy-User-ID %q, the proxy asserted %q (client fields %v)", cfgName, ids, c.Identity, c.Fields), c, req.Fields)
 						}
